@@ -61,7 +61,7 @@ CLANG_FUZZ = ["clang++", "-std=gnu++17", "-O1", "-g", "-fsanitize=fuzzer-no-link
               "-fno-sanitize-recover=undefined", "-D_GLIBCXX_DEBUG", "-fno-omit-frame-pointer"]
 CLANG_TSAN = ["clang++", "-std=gnu++17", "-O1", "-g", "-fsanitize=thread", "-fno-omit-frame-pointer", "-fno-inline"]
 GXX_SCHED = ["g++", "-std=gnu++17", "-O1", "-g", "-fsanitize=address,undefined", "-fno-sanitize-recover=undefined",
-             "-DCAPPUCCINO_VERIF_HOOKS", "-fno-omit-frame-pointer", "-pthread"]
+             "-DCAPPUCCINO_VERIF_HOOKS", "-DVERIF_VALUE_POINTS", "-fno-omit-frame-pointer", "-pthread"]
 
 
 def engine_spec(name):
@@ -85,7 +85,7 @@ def engine_spec(name):
     elif name == "sched":
         objs = [("ad%d" % k, "adapters.cpp", GXX_SCHED + ["-DVERIF_KIND=%d" % k]) for k in range(10)]
         objs += [(n, n + ".cpp", GXX_SCHED) for n in ("box_common", "interpose")]
-        objs += [("sched", "sched.cpp", ["g++", "-std=gnu++17", "-O1", "-g", "-DCAPPUCCINO_VERIF_HOOKS", "-pthread"])]
+        objs += [("sched", "sched.cpp", ["g++", "-std=gnu++17", "-O1", "-g", "-DCAPPUCCINO_VERIF_HOOKS", "-DVERIF_VALUE_POINTS", "-pthread"])]
         link = ["g++", "-fsanitize=address,undefined", "-pthread"]
         libs = ["-lrapidcheck"]
     else:
@@ -486,6 +486,47 @@ def seq_check(prop, tier, seed, cfg):
                             violations.append((path, sig))
                         else:
                             notes.append("worker %d died (%s) but its last case replays cleanly - not counted" % (w, sig))
+                    elif cfg.get("crash_rule") == "after_clear":
+                        # C20: the continuation after clear() dies although the same continuation on a freshly constructed
+                        # container does not - the cleared container is distinguishable from a new one
+                        r0 = run_replay(binp, prop, wmode, cpath)
+                        head, ops = split_case(text)
+                        last = max([i for i, o in enumerate(ops) if o.split()[0] == "clear"] or [-1])
+                        if r0["crash"] and last >= 0:
+                            keep = [o for o in ops[:last] if o.split()[0] in ("uttl", "adv")] + ops[last + 1:]
+                            fp = os.path.join(work, "fresh-w%d.case" % w)
+                            with open(fp, "w") as fh:
+                                fh.write("\n".join(head) + "\n" + "\n".join(keep) + "\n")
+                            r1 = run_replay(binp, prop, "model", fp)
+                            if not r1["crash"]:
+                                def same(r, sig=sig):
+                                    return r["crash"]
+                                mtext = minimize(binp, prop, wmode, text, same, work, budget_s=60)
+                                name = "%s-%s-seed%d-w%d-crash.case" % (prop, tier, seed, w)
+                                path = os.path.join(repdir, name)
+                                with open(path, "w") as fh:
+                                    fh.write("# property C20 mode %s\n# the continuation after clear() dies (%s); the same continuation on a fresh container does not\n%s" % (wmode, sig, mtext))
+                                violations.append((path, "crash_after_clear_only: " + sig))
+                                continue
+                        agg["foreign"]["C08"] = agg["foreign"].get("C08", 0) + 1
+                    elif cfg.get("engine_bin") == "sched":
+                        # the dumped program carries the schedule that was running.  A death that needs the interleaving
+                        # (the same program run thread after thread survives) is a C06 violation, not just a C08 matter.
+                        r0 = run_replay(binp, prop, wmode, cpath)
+                        seqp = os.path.join(work, "seq-w%d.case" % w)
+                        with open(seqp, "w") as fh:
+                            fh.write(text)
+                        p1 = subprocess.run([binp, "replay", "--property", prop, "--sequential", seqp], capture_output=True, text=True,
+                                            env=dict(os.environ, **SAN_ENV))
+                        seq_ok = p1.returncode in (0, 1) and "verdict" in p1.stdout
+                        if r0["crash"] and seq_ok:
+                            name = "%s-%s-seed%d-w%d-crash.case" % (prop, tier, seed, w)
+                            path = os.path.join(repdir, name)
+                            with open(path, "w") as fh:
+                                fh.write("# property C06 mode sched\n# dies only under this interleaving (%s); the same program run thread after thread completes\n%s" % (sig, text))
+                            violations.append((path, "crash_under_interleaving: " + sig))
+                        else:
+                            agg["foreign"]["C08"] = agg["foreign"].get("C08", 0) + 1
                     else:
                         agg["foreign"]["C08"] = agg["foreign"].get("C08", 0) + 1
                         if len(foreign_samples) < 3:
